@@ -533,6 +533,15 @@ func reachesSliceBound(v ssa.Value) bool {
 				if rec(x) {
 					return true
 				}
+			case *ssa.Return:
+				// the value is the result of a new helper: follow the results of its calls
+				if hp := x.Parent(); theCtx.IsNew(hp) && len(x.Results) == 1 {
+					for _, site := range theCtx.callSites(hp) {
+						if cv, ok := site.(ssa.Value); ok && rec(cv) {
+							return true
+						}
+					}
+				}
 			case *ssa.Call:
 				// the value is handed to a new helper function: follow the parameter
 				if cal := x.Call.StaticCallee(); cal != nil && theCtx.IsNew(cal) && len(cal.Params) == len(x.Call.Args) {
